@@ -27,8 +27,43 @@ def main():
         patch = open(d + '/patch.diff').read()
         files = sorted(set(re.findall(
             r'^\+\+\+ b/src/cell_type_mapper/(\S+)', patch, re.M)))
-        funcs = sorted(set(re.findall(
-            r'^@@.*@@\s*(?:def|class)\s+(\w+)', patch, re.M)))
+        funcs = set(re.findall(
+            r'^@@.*@@\s*(?:def|class)\s+(\w+)', patch, re.M))
+        # ... and the functions that enclose the changed lines (the hunk
+        # header names the preceding def, which may be another one)
+        cur = None
+        old_line = 0
+        touched = {}
+        for ln in patch.splitlines():
+            m2 = re.match(r'^\+\+\+ b/(\S+)', ln)
+            if m2:
+                cur = m2.group(1)
+                continue
+            m2 = re.match(r'^@@ -(\d+)', ln)
+            if m2:
+                old_line = int(m2.group(1))
+                continue
+            if cur is None or ln.startswith(('---', 'diff ', 'index ')):
+                continue
+            if ln.startswith('-'):
+                touched.setdefault(cur, set()).add(old_line)
+                old_line += 1
+            elif ln.startswith('+'):
+                touched.setdefault(cur, set()).add(old_line)
+            else:
+                old_line += 1
+        import ast as _ast
+        for f_, lines in touched.items():
+            try:
+                tree = _ast.parse(open('/repo/' + f_).read())
+            except (OSError, SyntaxError):
+                continue
+            for nd in _ast.walk(tree):
+                if isinstance(nd, (_ast.FunctionDef, _ast.ClassDef)) \
+                        and any(nd.lineno <= x <= nd.end_lineno
+                                for x in lines):
+                    funcs.add(nd.name)
+        funcs = sorted(funcs)
         avoid.setdefault(m['property'], []).append(
             f"{', '.join(files)} ({', '.join(funcs) or 'see file'})")
     os.makedirs(root, exist_ok=True)
